@@ -235,10 +235,11 @@ def c01(run):
 
 
 def c02(run):
-    return check(run, "C02", {"C02"}, [("build", TYPE_PARTS), ("reuse", ONE_PART), ("own", ONE_PART)],
+    return check(run, "C02", {"C02"}, [("build", TYPE_PARTS), ("reuse", ONE_PART), ("own", ONE_PART)], histories=300 if run.tier == "quick" else 5000, rule=
                  BUILD_RULE + "the bytes handed to the writer are read by the strict reference decoder (MQTTWire!StrictDecode) "
-                 "and ObsOfWire of the result must equal the PacketAPI model state",
-                 ["D2: only packets in InC02Domain are judged", "absent property = zero value"])
+                 "and ObsOfWire of the result must equal the PacketAPI model state; also caller-kept values (reuse family), packets "
+                 "next to decodes (own family) and seeded random histories with writes between the calls",
+                 assumptions=["D2: only packets in InC02Domain are judged", "absent property = zero value"])
 
 
 def c03(run):
@@ -325,7 +326,7 @@ def c09(run):
 
 
 def c10(run):
-    return check(run, "C10", {"C10"}, [("wfault", TYPE_PARTS), ("build", TYPE_PARTS)],
+    return check(run, "C10", {"C10"}, [("wfault", TYPE_PARTS), ("build", TYPE_PARTS), ("reuse", ONE_PART)],
                  "packets of the build family written to a writer that accepts everything, and small packets written to a "
                  "writer that accepts exactly k bytes then reports E for every k below the frame length; malformed but "
                  "constructible packets and Undefined; seeded random setter histories with WriteTo between the calls (a packet that grows "
@@ -367,7 +368,7 @@ def c16(run):
 
 
 def c17(run):
-    return check(run, "C17", {"C17"}, [("wf", ONE_PART)],
+    return check(run, "C17", {"C17"}, [("wf", ONE_PART), ("reuse", ONE_PART)],
                  "PUBLISH grid topic x alias x QoS 0..3 x packet id x other fields; SUBSCRIBE grid filters 0..3 x subscription "
                  "identifier around 268435455 x option bytes x empty filter; TopicFilter x all 256 option bytes; decoded "
                  "packets with QoS 3; WellFormed and the malformed! suffix of String against PublishWF/SubscribeWF/FilterWF", [])
